@@ -75,6 +75,9 @@ fn resolve_escape_sequences_to_bytes(escaped: &str) -> Result<Vec<u8>> {
                     match ch2 {
                         '0' => {
                             let octal = collect_sequence!();
+                            if !octal.chars().all(|digit| digit.is_digit(8)) {
+                                bail!("octal from `{octal}`: not two octal digits")
+                            }
                             bytes.push(
                                 u8::from_str_radix(&octal, 8)
                                     .with_context(|| format!("octal from `{octal}`"))?,
@@ -82,6 +85,9 @@ fn resolve_escape_sequences_to_bytes(escaped: &str) -> Result<Vec<u8>> {
                         }
                         'x' => {
                             let hex = collect_sequence!();
+                            if !hex.chars().all(|digit| digit.is_ascii_hexdigit()) {
+                                bail!("hex from `{hex}`: not two hexadecimal digits")
+                            }
                             bytes.push(
                                 u8::from_str_radix(&hex, 16)
                                     .with_context(|| format!("hex from `{hex}`"))?,
